@@ -42,7 +42,7 @@ def near(a, b, tag, what, f=1.0):
 
 def e_case(c):
     reset()
-    sps, R, fs = apply_gv(c["gv"])
+    sps, R, fs = apply_gv(c["gv"], c["x"]["sig"]["n"])
     x, m = build(c["x"])
     sc = c["x"].get("scale", 1.0)
     if sc != 1.0:
@@ -116,6 +116,21 @@ def e_case(c):
     for nm, o in (("DM", y), ("FIBER", f2)):
         g.no_alias([(nm + ".signal", o.signal), (nm + ".noise", o.noise)])
     g.release()
+    if ph2 <= 1e6:
+        gv(sps=gv.sps, fs=fs)
+        # a twin field with the same first/last sample, sum and energy (interior reversed), then the SAME object edited in place:
+        # both must be filtered for what they hold now
+        if N >= 4:
+            tw = m.s.copy()
+            tw[..., 1:-1] = tw[..., -2:0:-1]
+            yt = lib(D.DM, type(x)(tw.copy(), n_pol=m.npol), Darg)
+            near(yt.signal, ifft(fft(tw, axis=-1) * np.exp(-1j * w ** 2 * D2 * 1e-24 / 2), axis=-1), "dm!=reference-filter", "DM on the interior-reversed twin")
+        x.signal[..., 0] = 0
+        x.signal[..., N // 2] *= -2
+        ye = lib(D.DM, x, Darg)
+        near(ye.signal, ifft(fft(x.signal, axis=-1) * np.exp(-1j * w ** 2 * D2 * 1e-24 / 2), axis=-1), "dm-of-stale-content", "DM after the input was edited in place")
+        fe = lib(D.FIBER, x, L, alpha, b2, b3, 0.0)
+        near(fe.signal, ifft(fft(x.signal, axis=-1) * Hf, axis=-1), "fiber-of-stale-content", "FIBER after the input was edited in place", 2.0)
     ph = c["phi2"] * (1.0 if N > 1 else 0.0)
     nt = ph >= 1 and (N % 2 == 1 or m.npol == 2 or fs != 16e9)
     return {"nontrivial": bool(nt), "classes": [f"pol{m.npol}", "odd" if N % 2 else "even", "N1" if N == 1 else "N>1", "phase>=1" if ph >= 1 else "phase<1",
